@@ -92,6 +92,8 @@ def run(tier, seed):
     # the binomial-coefficient iterator shared by add and merge of every order: extracted and verified by Verus for EVERY n
     import verus_units
     obs += guarded("C04.engine.verus_units.iterbinomial_obligations@L93", lambda: verus_units.iterbinomial_obligations("C04"))
+    import rs_crosscheck
+    obs += guarded("C04.engine.rs_crosscheck", lambda: rs_crosscheck.crosscheck("C04", ['Moments6']))
     meta = {
         "level": "proof",
         "checker_cmd": "./check C04 (rsx expand define_moments_common! -> RS executor -> sympy / z3 QF_NRA; verus history.rs)",
